@@ -278,11 +278,13 @@ func checkC08(r *Run) {
 	r.Rule("C08.R1.layout", "encoder and decoder agree position by position on (flag guard, primitive) for the header and the series section; flag bit positions are pairwise distinct and bound to the same field on both sides; writeTimeRange/readTimeRange agree", 4)
 	r.Rule("C08.R2.alloc", "every allocation in the decode call tree whose size derives from bytes read off the wire is dominated by a bound check against an untainted value (or clamped by min)", 1)
 	r.Rule("C08.R4.order", "the encoder's sort order is total: sorter.Less is the strict lexicographic order on (keys, alignments, rawIndices), so series of one channel with equal alignment keep their order under the unstable sort.Sort", 1)
+	r.Rule("C08.R5.fullread", "binary.Reader takes bytes from its underlying io.Reader only through io.ReadFull: the decoder discards the byte counts and assumes every read filled its buffer, and stream transports deliver messages in chunks", 4)
 	r.Rule("C08.R3.nopanic", "no builtin panic / lo.Must is reachable through static calls from the decode entry points", 4)
 
 	checkLayout(r, p)
 	checkDecodeAlloc(r, p)
 	checkDecodeNoPanic(r, p)
+	checkFullReads(r, p)
 	if less := p.Func(codecPkg, "sorter", "Less"); less == nil {
 		r.Undecide("C08.R4: sorter.Less not found")
 	} else {
@@ -856,4 +858,57 @@ func checkDecodeNoPanic(r *Run, p *Prog) {
 		walk(e, []string{e.Name})
 		r.ObPath("C08.R3.nopanic", "no explicit panic reachable from "+e.Name, p.Position(e.Pos()), len(bad) == 0, fmt.Sprintf("%d function(s) reached through static calls in codec, x/binary, x/telem, frame and the HTTP framer", len(seen)), bad)
 	}
+}
+
+// checkFullReads decides C08.R5.
+func checkFullReads(r *Run, p *Prog) {
+	n := 0
+	for _, fn := range p.FuncsOfPkg("x/binary") {
+		if fn.Decl == nil || fn.Body == nil || recvName(fn.Decl) != "(*Reader)" {
+			continue
+		}
+		inspectNoLit(fn.Body, func(x ast.Node) bool {
+			call, ok := x.(*ast.CallExpr)
+			if !ok {
+				return true
+			}
+			// a direct method call on the underlying reader field
+			if sel, ok := ast.Unparen(call.Fun).(*ast.SelectorExpr); ok {
+				if inner, ok := ast.Unparen(sel.X).(*ast.SelectorExpr); ok {
+					if f, ok := fn.Pkg.TypesInfo.Uses[inner.Sel].(*types.Var); ok && f.IsField() && isIOReader(f.Type()) && sel.Sel.Name == "Read" {
+						n++
+						r.Ob("C08.R5.fullread", "direct Read on the underlying reader in "+fn.Name, posOf(p, call), false, "a short read leaves the tail of the buffer zeroed and the unread bytes are parsed as the next field")
+					}
+				}
+			}
+			// the underlying reader passed to a helper: must be io.ReadFull / io.ReadAtLeast
+			for _, a := range call.Args {
+				inner, ok := ast.Unparen(a).(*ast.SelectorExpr)
+				if !ok {
+					continue
+				}
+				f, ok := fn.Pkg.TypesInfo.Uses[inner.Sel].(*types.Var)
+				if !ok || !f.IsField() || !isIOReader(f.Type()) {
+					continue
+				}
+				callee := CalleeFunc(fn, call)
+				good := callee != nil && callee.Pkg() != nil && callee.Pkg().Path() == "io" && callee.Name() == "ReadFull"
+				n++
+				name := "?"
+				if callee != nil {
+					name = callee.Name()
+				}
+				r.Ob("C08.R5.fullread", fn.Name+" reads through "+name, posOf(p, call), good, "the underlying reader may only be drained by io.ReadFull")
+			}
+			return true
+		})
+	}
+	if n < 4 {
+		r.Undecide("C08.R5: only %d reads of binary.Reader's underlying reader found (expected 4)", n)
+	}
+}
+
+func isIOReader(t types.Type) bool {
+	n, ok := types.Unalias(t).(*types.Named)
+	return ok && n.Obj().Pkg() != nil && n.Obj().Pkg().Path() == "io" && n.Obj().Name() == "Reader"
 }
